@@ -95,6 +95,11 @@ func Harness_app_settings() {
 		}
 		want[s.name] = w
 	}
+	// the current date from the configuration file (RFC 3339), used when --today is absent
+	cfgToday := hasCfg && verifChoose("cfg-today", 2) == 1
+	if cfgToday {
+		ini["Global"] += "Now = 2021-01-24T00:00:00Z\n"
+	}
 	text := "[Global]\n" + ini["Global"] + "[Resolver]\n" + ini["Resolver"]
 	switch cfgMode {
 	case 1:
@@ -135,7 +140,9 @@ func Harness_app_settings() {
 		tt, perr := time.Parse(want["date-format"], today)
 		verifAssert("today:read-with-effective-date-format", perr == nil && o.GlobalConfig.Now.Equal(tt))
 	}
-	if !withToday {
+	if !withToday && cfgToday {
+		verifAssert("today:flag>config>clock", o.GlobalConfig.Now.Equal(time.Date(2021, 1, 24, 0, 0, 0, 0, time.UTC)))
+	} else if !withToday {
 		// without --today the current date is the clock's, whatever else was loaded
 		verifAssert("today:defaults-to-the-clock", !o.GlobalConfig.Now.IsZero())
 	}
